@@ -125,4 +125,25 @@ func (e *Enc) typingFact(t types.Type, term string) {
 	}
 }
 
+// allocFact: the heap is closed - a pointer, map or slice stored in a field of
+// heap state h refers to an object allocated in h.  Ground reads only.
+func (e *Enc) allocFact(t types.Type, term string, h *Heap) {
+	if h == nil || strings.Contains(term, "!") && (strings.Contains(term, "q") && quantVar.MatchString(term)) {
+		return
+	}
+	switch t.Underlying().(type) {
+	case *types.Pointer, *types.Map, *types.Slice:
+	default:
+		return
+	}
+	if e.allocArr == nil {
+		e.allocArr = map[string]bool{}
+	}
+	if e.allocArr[term] {
+		return
+	}
+	e.allocArr[term] = true
+	e.assumeAllocated(t, term, h, "true")
+}
+
 var quantVar = regexp.MustCompile(`\b(q[0-9]*![A-Za-z_$][A-Za-z0-9_$]*|l![A-Za-z_]+|p![A-Za-z_]+|r[0-9]*!f|q!probe)`)
